@@ -16,9 +16,11 @@ HARNESSES = {
 PROPS = {
     "C08": {
         "level": "proof",
-        "lean_modules": ["Astria.Merkle.Model", "Astria.Merkle.Theorems", "Astria.Merkle.Index", "Astria.Properties"],
+        "lean_modules": ["Astria.Merkle.Model", "Astria.Merkle.Theorems", "Astria.Merkle.Index", "Astria.Properties",
+                         "Astria.Block.Rfc", "Astria.Block.FlatComplete", "Astria.Properties.C08"],
         "theorems": ["Astria.C08_decode_total", "Astria.C08_verify_total", "Astria.C08_proof_sound",
-                     "Astria.C08_root_change", "Astria.C08_walk_terminates", "Astria.C08_original_counterexamples"],
+                     "Astria.C08_root_change", "Astria.C08_walk_terminates", "Astria.C08_original_counterexamples",
+                     "Astria.C08_rfc_proof_complete", "Astria.C08_index_walk_accepts_rfc_paths", "Astria.C08_root_binds_leaves"],
         "harnesses": ["merkle"],
         "monitors": ["decode_verify_total", "tree_total", "mutation_rejected", "root_is_rfc6962"],
         "scope_regex": r"^merkle ",
@@ -32,8 +34,9 @@ PROPS = {
         "trusted_base": [KERNEL, "hand-written model Astria/Merkle/Model.lean tied to crates/astria-merkle by the correspondence run of this check",
                          "harness /verif/harness/merkle/mod.rs + Lean driver (line protocol, Lean SHA-256 checked against sha2 on every tree line)",
                          "sha2 crate (SHA-256) — hash functions are parameters of every theorem"],
-        "assumptions": ["flat-array root = RFC 6962 MTH and construct_proof = RFC audit path are checked by evaluation on every generated tree "
-                        "(monitor root_is_rfc6962), not yet by a closed refinement proof (DESIGN §6 C08, flat_eq_rfc staged)",
+        "assumptions": ["verification side of the refinement is proved (C08_index_walk_accepts_rfc_paths: the crate's index walk on the RFC audit path "
+                        "yields the RFC tree hash); the construction side (Tree::push / construct_proof produce the RFC root and path) is checked by "
+                        "evaluation on every generated tree (monitor root_is_rfc6962), not by a theorem",
                         "soundness is in extractor form: a verified mutation yields an explicit SHA-256 collision; no collision-freedom axiom"],
         "explanation": "theorems: decode/verify total for every raw proof and hash function, extractor soundness, termination of the index walk; "
                        "correspondence: model = code on every generated line",
